@@ -1018,15 +1018,19 @@ class Intrinsics:
             if isinstance(v, str):
                 return [(st, v)]
             if isinstance(v, Sym) and v.ty.kind == 'pyv':
+                # str(x) of an instance of a str SUBCLASS calls its __str__, which user code may
+                # override (enum.Enum with a str mix-in does): only for an exact str is the
+                # result the string itself
                 b = J.base_of(v.t)
-                return [(st, Sym(z3.If(J.is_str(b), PyV.ps(b), fresh('strconv', StrS)), STR,
-                                 fresh=True))]
+                return [(st, Sym(z3.If(z3.And(J.is_str(b), z3.Not(PyV.is_PSub(v.t))), PyV.ps(b),
+                                       fresh('strconv', StrS)), STR, fresh=True))]
         if n == 'int':
             v = pos[0]
             if isinstance(v, Sym) and v.ty.kind == 'pyv':
+                # likewise int(x) honours an overridden __int__
                 b = J.base_of(v.t)
-                return [(st, Sym(z3.If(J.is_int(b), b, PyV.PInt(fresh('intconv', IntS))), PYV,
-                                 fresh=True))]
+                return [(st, Sym(z3.If(z3.And(J.is_int(b), z3.Not(PyV.is_PSub(v.t))), b,
+                                       PyV.PInt(fresh('intconv', IntS))), PYV, fresh=True))]
         if n == 'float':
             v = pos[0]
             if isinstance(v, str) and v in ('inf', '-inf', 'nan'):
@@ -1034,8 +1038,8 @@ class Intrinsics:
                                   '-inf': PyV.PInf(z3.BoolVal(True)), 'nan': PyV.PNaN}[v], PYV))]
             if isinstance(v, Sym) and v.ty.kind == 'pyv':
                 b = J.base_of(v.t)
-                return [(st, Sym(z3.If(J.is_floatish(b), b, PyV.PFloat(fresh('fconv', RealS))), PYV,
-                                 fresh=True))]
+                return [(st, Sym(z3.If(z3.And(J.is_floatish(b), z3.Not(PyV.is_PSub(v.t))), b,
+                                       PyV.PFloat(fresh('fconv', RealS))), PYV, fresh=True))]
         if n == 'bool':
             v = pos[0]
             t = eng.truth(v)
@@ -1049,7 +1053,13 @@ class Intrinsics:
         if isinstance(v, Sym) and v.ty.kind == 'set':
             return Sym(v.t, v.ty, fresh=True)
         if isinstance(v, Sym) and v.ty.kind == 'pyv':
-            # set(<json list of strings>): the strings of the list
+            # set(<json list of strings>): the strings of the list.  That the JSON value IS a
+            # list of strings is an obligation (stated for the list itself and its first element:
+            # enough to be refuted by a wrong-shaped value)
+            items = J.items(v.t)
+            eng.oblige(st, z3.And(J.is_listish(v.t),
+                                  z3.Implies(PyVs.is_cons(items), J.is_str(PyVs.hd(items)))),
+                       'type', 'json-value-is-a-list-of-str')
             s = fresh('setofjson', z3.ArraySort(StrS, BoolS))
             return Sym(s, SET(STR), fresh=True)
         if isinstance(v, Sym) and v.ty.kind == 'list':
@@ -1251,6 +1261,28 @@ class Intrinsics:
                     outs.append((s1, Raise(new_exc('TypeError'))))
             return outs
         raise Unsupported('math.isnan(%r)' % (v,))
+
+    def i_str___str__(self, eng, st, f, pos, kws, node):
+        v = pos[0]
+        if isinstance(v, Sym) and v.ty.kind == 'pyv':
+            b = J.base_of(v.t)
+            return [(st, Sym(z3.If(J.is_str(b), PyV.ps(b), fresh('strval', StrS)), STR, fresh=True))]
+        raise Unsupported('str.__str__(%r)' % (v,))
+
+    def i_int___int__(self, eng, st, f, pos, kws, node):
+        v = pos[0]
+        if isinstance(v, Sym) and v.ty.kind == 'pyv':
+            b = J.base_of(v.t)
+            return [(st, Sym(z3.If(J.is_int(b), b, PyV.PInt(fresh('intval', IntS))), PYV, fresh=True))]
+        raise Unsupported('int.__int__(%r)' % (v,))
+
+    def i_float___float__(self, eng, st, f, pos, kws, node):
+        v = pos[0]
+        if isinstance(v, Sym) and v.ty.kind == 'pyv':
+            b = J.base_of(v.t)
+            return [(st, Sym(z3.If(J.is_floatish(b), b, PyV.PFloat(fresh('floatval', RealS))), PYV,
+                             fresh=True))]
+        raise Unsupported('float.__float__(%r)' % (v,))
 
     def i_float___repr__(self, eng, st, f, pos, kws, node):
         v = pos[0]
